@@ -1,6 +1,7 @@
 """Storage rules SQ1-SQ3 over the SQL literals compiled into the two DBM modules."""
 from .facts import call_names, call_target
 from .framework import RuleResult
+from . import origin as og
 from . import sql, origin as og
 from .rulekit import sites, sites_containing, arg_origin, shortfn, always_reaches, variant_fact
 
@@ -387,7 +388,30 @@ def rule_SQ5(ctx, tier, which=None):
             rr.ok("shared appointment body deleted only when pending + invalid references == 1", sample={"rule": "SQ5", "reference count over": counted})
         else:
             rr.fail("client:refcount-tables:%s" % ",".join(counted), "delete_pending_appointment counts references over %s; both pending_appointments and invalid_appointments hold links to the shared body" % counted, where=d.span)
-    rr.require_floor({None: 23, "tower": 10, "client": 13}[which], "SQ5 instances")
+        # ... and the body is deleted only on a path where that count was found to be (at most) one
+        from .rulekit import facts_at, rel_of_term
+        for bb, st in sql.body_sql(d):
+            c = sql.classify(st)
+            if c["kind"] != "delete" or c.get("table") != "appointments":
+                continue
+            ok = False
+            for f in facts_at(ctx, d, bb):
+                if f[0] != "truth":
+                    continue
+                for op, l, r in rel_of_term(f[1], f[2]):
+                    k = og.strip(r)
+                    if not (isinstance(k, tuple) and k and k[0] == "const"):
+                        continue
+                    counts = {str(x[1]) for x in og.walk(l) if isinstance(x, tuple) and x and x[0] == "const" and "COUNT" in str(x[1]).upper()}
+                    both = any("pending_appointments" in x for x in counts) and any("invalid_appointments" in x for x in counts)
+                    kv = str(k[1])
+                    if both and ((op in ("Eq", "Le") and kv == "1") or (op == "Lt" and kv == "2")):
+                        ok = True
+            if ok:
+                rr.ok("DELETE FROM appointments only under references == 1", sample={"rule": "SQ5", "site": d.line_of(bb), "guard": "pending + invalid == 1"})
+            else:
+                rr.fail("client:body-deleted-while-referenced", "delete_pending_appointment deletes the shared appointment body on a path where the number of references (pending + invalid rows, all towers) was not found to be one: the cascade removes the other towers' pending rows with it", where=d.line_of(bb))
+    rr.require_floor({None: 24, "tower": 10, "client": 14}[which], "SQ5 instances")
     return rr
 
 
